@@ -96,6 +96,7 @@ Proof. vm_compute. repeat split; reflexivity. Qed.
 Example C24_witness_agree :
   agree (CFn alice PS [bob] (OpModify ml1) true) = true /\
   agree (CSrv alice PS [bob] (OpModify ml1) SOk false) = true /\
+  pcheck (CSrv alice_ro PS [bob] (OpModify ml1) SOther false) = false /\
   agree (CSrv alice_ro PS [bob] (OpModify ml1) SDenied true) = true /\
   agree (CFn alice_ro PS [bob] (OpModify ml1) true) = false.
 Proof. vm_compute. repeat split; reflexivity. Qed.
